@@ -34,8 +34,10 @@ func (o c20Op) String() string {
 		return fmt.Sprintf("Delete(%q)", o.Key)
 	case "reset":
 		return "Reset()"
+	case "renew0":
+		return "Destroy();NewContext() [context released as is: parameters set, no node, no path]"
 	}
-	return "Destroy();NewContext()"
+	return "Destroy();NewContext() [context released dirty: path, node, router name]"
 }
 
 func c20Alphabet() []c20Op {
@@ -46,7 +48,7 @@ func c20Alphabet() []c20Op {
 		}
 		ops = append(ops, c20Op{"del", k, ""})
 	}
-	return append(ops, c20Op{K: "reset"}, c20Op{K: "renew"}, c20Op{"del", "zz", ""})
+	return append(ops, c20Op{K: "reset"}, c20Op{K: "renew"}, c20Op{K: "renew0"}, c20Op{"del", "zz", ""})
 }
 
 type dummyNode struct{}
@@ -212,11 +214,13 @@ func c20Run(ops []c20Op) (ctx *types.Context, model map[string]string, class, ob
 			if ctx.Path != "" {
 				return ctx, model, "reset-keeps-path", fmt.Sprintf("Path=%q after Reset", ctx.Path), `""`
 			}
-		case "renew":
-			// make the released context as dirty as a served request leaves it
-			ctx.Path = "/left/over"
-			ctx.SetRouterName("left-over-router")
-			ctx.SetNode(dummyNode{})
+		case "renew", "renew0":
+			if o.K == "renew" {
+				// make the released context as dirty as a served request leaves it
+				ctx.Path = "/left/over"
+				ctx.SetRouterName("left-over-router")
+				ctx.SetNode(dummyNode{})
+			}
 			ctx.Destroy()
 			ctx = types.NewContext()
 			model = map[string]string{}
